@@ -126,6 +126,17 @@ func (g *Gate) RoundTrip(req *http.Request) (*http.Response, error) {
 				return mk(500, "boom")
 			case "garbage-body":
 				return mk(200, "this is not a profile \x00\x01\x02")
+			case "truncated-gzip":
+				// a well-formed gzip header and the first part of a real profile's stream
+				var buf bytes.Buffer
+				if p := g.Profiles[name]; p != nil {
+					p.Write(&buf)
+				}
+				b := buf.Bytes()
+				if len(b) > 24 {
+					b = b[:len(b)-9]
+				}
+				return mk(200, string(b))
 			}
 		}
 	}
@@ -188,7 +199,7 @@ func (g *Gate) Drive(groups [][]string, seed int64) {
 	}()
 }
 
-var kinds = []string{"fetcher-error", "invalid-profile", "missing-file", "http-404", "http-500", "garbage-body"}
+var kinds = []string{"fetcher-error", "invalid-profile", "missing-file", "http-404", "http-500", "garbage-body", "truncated-gzip"}
 
 func genProfile(r *rand.Rand, i int) *profile.Profile {
 	p := &profile.Profile{SampleType: []*profile.ValueType{{Type: "n", Unit: "count"}, {Type: "v", Unit: "count"}}, PeriodType: &profile.ValueType{Type: "cpu", Unit: "ns"}, Period: 1}
@@ -276,7 +287,7 @@ func run(c *harness.Ctx) harness.Result {
 	var srcs, bases []string
 	mkName := func(prefix string, i int, k string) string {
 		switch k {
-		case "http-404", "http-500", "garbage-body":
+		case "http-404", "http-500", "garbage-body", "truncated-gzip":
 			return fmt.Sprintf("http://%s%03d.test/pprof/profile", prefix, i)
 		case "missing-file":
 			return filepath.Join(c.Tmp, fmt.Sprintf("%s%03d.missing", prefix, i))
@@ -643,7 +654,7 @@ func init() {
 	harness.Register(&harness.Check{
 		ID:    "C16",
 		Level: "fault_enumeration",
-		Rule: "source lists of 1,2,3,5,127,128,129,256,257,300 sources (cycled) with optional 1/2/130 bases; 30% of the profiles have another set or order of sample types ([v n], [v], [x v] instead of [n v]) so that only v is common; failing subset in {none, one, first, last, all-but-one, a whole 128-chunk, all, random} x failure kind per source in {Fetcher error, structurally invalid profile, missing file, HTTP 404, HTTP 500, garbage body}; every fetch blocks at a gate; the controller collects the fetches that have arrived (all outstanding ones, or what is there once no new one arrives for 60 ms - it assumes nothing about pprof's batch size) and releases them one by one in a seed-chosen permutation, each after the previous one completed (completion order inside every batch forced exactly; arrival/release/completion events recorded); every listed source must be asked for exactly once; 3-6 different completion orders per case. " +
+		Rule: "source lists of 1,2,3,5,127,128,129,256,257,300 sources (cycled) with optional 1/2/130 bases; 30% of the profiles have another set or order of sample types ([v n], [v], [x v] instead of [n v]) so that only v is common; failing subset in {none, one, first, last, all-but-one, a whole 128-chunk, all, random} x failure kind per source in {Fetcher error, structurally invalid profile, missing file, HTTP 404, HTTP 500, garbage body, gzip stream cut short}; every fetch blocks at a gate; the controller collects the fetches that have arrived (all outstanding ones, or what is there once no new one arrives for 60 ms - it assumes nothing about pprof's batch size) and releases them one by one in a seed-chosen permutation, each after the previous one completed (completion order inside every batch forced exactly; arrival/release/completion events recorded); every listed source must be asked for exactly once; 3-6 different completion orders per case. " +
 			"part tls: pprof's own transport against two loopback TLS servers with self-signed certificates, one listed as https+insecure:// and one as https://, answered in a forced order: the https source must fail with one error line and the report be that of the other source alone. A case that does not finish within 2 min in 3 of 3 fresh processes is a hang (violation). oracle: fails iff no source (or, with bases, no base) succeeded; exactly one UI error line per failed source naming it and none for good ones; byte-identical -traces across completion orders; -traces equal to the run listing only the successful sources; -top equal to the entry-wise signed sum of the successful profiles' reference reports. non-trivial = at least 2 sources; distinct = run description; distinct_observed = distinct release-order prefixes",
 		Assumptions:   []string{"failing subsets and kinds are enumerated per list shape; completion orders are sampled (3-6 of n! per chunk)"},
 		Parts:         []harness.Part{{Name: "fetch", Quick: 400, Thor: 12000, Run: run}, {Name: "tls", Quick: 8, Thor: 200, Run: runTLS}},
